@@ -92,7 +92,9 @@ Eval(e, env) ==
     [] e.k = "idx" -> LET x == Eval(e.x, env) i == Eval(e.y, env) IN
                       IF x.t = "e" THEN x ELSE IF i.t = "e" THEN i
                       ELSE IF x.t # "l" \/ ~IsNum(i) THEN Err("TypeError")
-                      ELSE IF Num(i) >= 0 /\ Num(i) < Len(x.items) THEN IV(x.items[Num(i) + 1]) ELSE Err("IndexError")
+                      ELSE IF Num(i) >= 0 /\ Num(i) < Len(x.items) THEN IV(x.items[Num(i) + 1])
+                      ELSE IF Num(i) < 0 /\ 0 - Num(i) <= Len(x.items) THEN IV(x.items[Len(x.items) + Num(i) + 1])     \* Python counts a negative index from the end
+                      ELSE Err("IndexError")
     [] e.k = "where" -> LET c == Eval(e.c, env) IN
                         IF c.t = "e" THEN c ELSE IF Truth(c) THEN Eval(e.x, env) ELSE Eval(e.y, env)
     \* Python's `and` / `or`: the right operand is evaluated only when the left one does not decide
